@@ -202,4 +202,75 @@ theorem compare_op_is_comparator_verdict {α : Type} (cmp : α → α → Orderi
     compareOp (fun x y => cmp x y == .eq) (fun x y => cmp x y == .lt) dflt op a b
       = kernelSpec cmp op a b := compareOp_eq_spec cmp h dflt op a b
 
+
+/-! ## tie to the source: shapes of the critical expressions -/
+
+/-- **Every source fragment the model mirrors is still present verbatim** (modulo white space):
+`child_opts` / `child_rank` option derivation, the `compare_impl` arms, `sort_impl`'s `v_limit`
+and assembly, `partial_sort`, the top-k heap, `rank_impl`'s loop, `partition`'s boundary
+construction and `ranges`, the three `distinct` bit formulas, the operator table of `apply`,
+`eq_inline_scalar`'s mask, `inline_key_fast`, the float `compare`/`is_eq`.  An edit of any of
+them makes the corresponding `*_lost` flag true and this theorem fail, so the change must be
+re-modelled rather than silently accepted. -/
+theorem source_shape_ties :
+    SORT_BYTES_PREFIX_LEN_lost = false ∧
+    SORT_BYTES_PAD_TO_lost = false ∧
+    SORT_BYTES_SHORT_A_lost = false ∧
+    SORT_BYTES_SHORT_B_lost = false ∧
+    MAX_INLINE_VIEW_LEN_lost = false ∧
+    INLINE_KEY_SHIFT_lost = false ∧
+    VIEW_CMP_INLINE_L_lost = false ∧
+    VIEW_CMP_INLINE_R_lost = false ∧
+    VIEW_LT_INLINE_L_lost = false ∧
+    VIEW_LT_INLINE_R_lost = false ∧
+    SHAPE_CHILD_OPTS_lost = false ∧
+    SHAPE_CHILD_RANK_lost = false ∧
+    SHAPE_COMPARE_DISPATCH_lost = false ∧
+    SHAPE_COMPARE_NULL_FILTER_lost = false ∧
+    SHAPE_COMPARE_IMPL_DESC_lost = false ∧
+    SHAPE_COMPARE_IMPL_NULLS_lost = false ∧
+    SHAPE_COMPARE_IMPL_ARMS_lost = false ∧
+    SHAPE_LIST_LOOP_lost = false ∧
+    SHAPE_FLOAT_COMPARE_lost = false ∧
+    SHAPE_FLOAT_IS_EQ_lost = false ∧
+    SHAPE_INT_COMPARE_lost = false ∧
+    SHAPE_SORT_BYTES_CMP_lost = false ∧
+    SHAPE_SORT_BYTES_PREFIX_lost = false ∧
+    SHAPE_SORT_IMPL_VLIMIT_lost = false ∧
+    SHAPE_SORT_IMPL_DESC_lost = false ∧
+    SHAPE_SORT_IMPL_ASSEMBLY_lost = false ∧
+    SHAPE_SORT_UNSTABLE_BY_lost = false ∧
+    SHAPE_PARTIAL_SORT_lost = false ∧
+    SHAPE_LEXSORT_HEAP_GUARD_lost = false ∧
+    SHAPE_LEXSORT_TRUNCATE_lost = false ∧
+    SHAPE_LEXSORT_TOPK_lost = false ∧
+    SHAPE_LEX_COMPARE_lost = false ∧
+    SHAPE_RANK_SORT_lost = false ∧
+    SHAPE_RANK_INIT_lost = false ∧
+    SHAPE_RANK_LOOP_lost = false ∧
+    SHAPE_PARTITION_OR_lost = false ∧
+    SHAPE_PARTITION_BOUNDS_lost = false ∧
+    SHAPE_PARTITION_CMP_lost = false ∧
+    SHAPE_PARTITION_RANGES_lost = false ∧
+    SHAPE_CMP_DISTINCT_lost = false ∧
+    SHAPE_CMP_NOT_DISTINCT_lost = false ∧
+    SHAPE_CMP_DISTINCT_ONE_lost = false ∧
+    SHAPE_CMP_NOT_DISTINCT_ONE_lost = false ∧
+    SHAPE_CMP_UNION_NULLS_lost = false ∧
+    SHAPE_CMP_APPLY_TABLE_lost = false ∧
+    SHAPE_CMP_APPLY_TABLE_VEC_lost = false ∧
+    SHAPE_CMP_INLINE_SCALAR_lost = false ∧
+    SHAPE_VIEW_INLINE_KEY_lost = false ∧
+    SHAPE_IN_LIST_EQ_lost = false ∧
+    MAX_LOW_HALF_LEN_lost = false ∧
+    LEXSORT_HEAP_DIVISOR_lost = false := by
+  decide
+
+/-- constants of the scalar-equality fast path and the top-k guard are in their safe ranges:
+the needle (length + bytes) fits the low 64 bits of a view; any divisor ≥ 1 keeps
+`limit ≤ row_count` on the heap path -/
+theorem fast_path_constants_safe :
+    32 + 8 * MAX_LOW_HALF_LEN ≤ 64 ∧ MAX_LOW_HALF_LEN ≤ MAX_INLINE_VIEW_LEN ∧ 1 ≤ LEXSORT_HEAP_DIVISOR := by
+  decide
+
 end ArrowModel.C10
